@@ -159,6 +159,9 @@ func (e *Exec) callSSA(caller *frame, pos token.Pos, fn *ssa.Function, args []Va
 	e.depth++
 	if e.depth > e.cfg.MaxDepth {
 		e.depth--
+		if _, on := e.ghost["hangviolation"]; on && e.inInit == 0 {
+			panic(hangPanic{"unbounded recursion (call depth " + fmt.Sprint(e.cfg.MaxDepth) + ") at " + name})
+		}
 		panic(pathEnd{"unwind:call-depth " + name})
 	}
 	e.funcsSeen[fn] = true
